@@ -64,7 +64,7 @@ func VC18_LoadOption() {
 	vsym.Assume(vsym.And(partNum >= 1, partNum <= 99))
 	start, size := vsym.U16("part.start"), vsym.U16("part.size")
 	sig := vsym.BytesN("part.sig", 16)
-	pfmt := 1 + byte(vsym.Pick("part.format", 2)) // 1 = MBR, 2 = GPT
+	pfmt := 1 + byte(vsym.Pick("part.format", 2))     // 1 = MBR, 2 = GPT
 	sigType := 1 + byte(vsym.Pick("part.sigtype", 2)) // 1 = 32-bit MBR signature, 2 = GUID
 
 	hd := vCat(vLE32(partNum), vLE16(start), make([]byte, 6), vLE16(size), make([]byte, 6), sig, []byte{pfmt, sigType})
@@ -126,6 +126,47 @@ func VC18_LoadOption() {
 	}
 	wantHD := vCat([]byte("HD("), num, []byte(","), name, []byte(","), sigText, []byte(",0x"), vHex16(start), []byte(",0x"), vHex16(size), []byte(")"))
 	vsym.AssertBytesEq([]byte(h.Format()), wantHD, "hard-drive node renders as HD(n,type,signature,0xstart,0xsize)")
+	vsym.Reach("end")
+}
+
+// vUnit: a symbolic UTF-16 code unit that is a scalar value on its own (not NUL, not a surrogate).
+func vUnit(name string) uint16 {
+	u := vsym.U16(name)
+	vsym.Assume(vsym.And(u != 0, vsym.Or(u < 0xD800, u > 0xDFFF)))
+	return u
+}
+
+// vUTF8: UTF-8 of a BMP scalar value, from the definition.
+func vUTF8(u uint16) []byte {
+	switch {
+	case u < 0x80:
+		return []byte{byte(u)}
+	case u < 0x800:
+		return []byte{0xC0 | byte(u>>6), 0x80 | byte(u)&0x3F}
+	}
+	return []byte{0xE0 | byte(u>>12), 0x80 | byte(u>>6)&0x3F, 0x80 | byte(u)&0x3F}
+}
+
+// VC18_LoadOptionStrings: description and file-path name of two UTF-16 code units each, any BMP
+// scalar value except NUL (non-ASCII text), in a load option with a file-path node and an end node.
+func VC18_LoadOptionStrings() {
+	attrs := vsym.U32("attrs")
+	d0, d1 := vUnit("d0"), vUnit("d1")
+	f0, f1 := vUnit("f0"), vUnit("f1")
+	desc8 := vCat(vUTF8(d0), vUTF8(d1))
+	path8 := vCat(vUTF8(f0), vUTF8(f1))
+	nodes := vCat(vNode(4, 4, vCat(vLE16(f0), vLE16(f1), []byte{0, 0})), vNode(0x7f, 0xff, nil))
+	in := vCat(vLE32(attrs), vLE16(uint16(len(nodes))), vLE16(d0), vLE16(d1), []byte{0, 0}, nodes)
+	var lo EFILoadOption
+	err := lo.Unmarshal(bytes.NewBuffer(in))
+	vsym.Assert(err == nil, "a load option with non-ASCII description and path decodes")
+	vsym.Assert(lo.Attributes == attributes.Attributes(attrs), "attributes recovered")
+	vsym.AssertBytesEq([]byte(lo.Description), desc8, "description recovered")
+	vsym.Assert(len(lo.FilePath) == 1, "one decoded node (end node excluded)")
+	fp, ok := lo.FilePath[0].(FileTypeMediaDevicePath)
+	vsym.Assert(ok, "file-path node decoded")
+	vsym.AssertBytesEq([]byte(fp.PathName), path8, "file path recovered")
+	vsym.AssertBytesEq([]byte(fp.Format()), vCat([]byte("File("), path8, []byte(")")), "file-path node renders as File(path)")
 	vsym.Reach("end")
 }
 
